@@ -276,9 +276,9 @@ def spec_rqs(knots=1, interval=(-2, 2)):
     return sp
 
 
-def spec_planar(dim=2, cond=False, leaky=True):
+def spec_planar(dim=2, cond=False, leaky=True, slope=0.1):
     key = jr.PRNGKey(1)
-    kw = dict(negative_slope=0.1) if leaky else {}
+    kw = dict(negative_slope=slope) if leaky else {}
     if cond:
         b = fb.Planar(key, dim=dim, cond_dim=2, width_size=2, depth=1, **kw)
     else:
@@ -294,15 +294,16 @@ def spec_planar(dim=2, cond=False, leaky=True):
         if cond:
             return []
         from flowjax.bijections.planar import _UnconditionalPlanar
-        j = jax.make_jaxpr(lambda p: _UnconditionalPlanar(p[:dim], p[dim:2 * dim], p[-1], 0.1 if leaky else None).get_act_scale())(s.P_ex[0])
+        j = jax.make_jaxpr(lambda p: _UnconditionalPlanar(p[:dim], p[dim:2 * dim], p[-1], slope if leaky else None).get_act_scale())(s.P_ex[0])
         uh = I.run(j, Psym[0])[0]
         p = Psym[0]
         dot = Fraction(0)
         for i in range(dim):
             dot = jx.add(dot, jx.mul(p[i], uh[i]))
         dt, do, di = jx.split(dot)
-        lem = z3.And(jx.toz(jx.band(do, di == 0)), jx.toreal(dt) > -1)
-        st, _ = jx.check(ctx, assume, lem, name="seed: w.u_hat > -1")
+        smax = Fraction(max(1.0, slope)) if leaky else Fraction(1)
+        lem = z3.And(jx.toz(jx.band(do, di == 0)), jx.toreal(dt) * z3.RealVal(str(smax)) > -1)
+        st, _ = jx.check(ctx, assume, lem, name="seed: 1 + max_slope * w.u_hat > 0")
         uht = [jx.split(v)[0] for v in uh]
         oks = jx.band(*[jx.band(jx.split(v)[1], jx.split(v)[2] == 0) for v in uh])
         if st == "unsat" and oks is not True:
@@ -315,9 +316,9 @@ def spec_planar(dim=2, cond=False, leaky=True):
         for i in range(dim):
             I.abstract[uht[i].get_id()] = fr[i]
         ctx.keep += list(uht)
-        return [sum((jx.toreal(p[i]) * fr[i] for i in range(dim)), z3.RealVal(0)) > -1]
-    return Spec(f"Planar(d={dim},{'leaky_relu' if leaky else 'tanh'}{',cond' if cond else ''})", b, inv=inv, has_inverse=leaky, seed=seed,
-                tags=("planar",), note="w != 0 (get_act_scale divides by |w|^2); lemma w.u_hat > -1 proved from the traced get_act_scale and seeded")
+        return [sum((jx.toreal(p[i]) * fr[i] for i in range(dim)), z3.RealVal(0)) * z3.RealVal(str(smax)) > -1]
+    return Spec(f"Planar(d={dim},{'leaky_relu' if leaky else 'tanh'}{'' if slope == 0.1 or not leaky else ',negative_slope=' + str(slope)}{',cond' if cond else ''})", b, inv=inv, has_inverse=leaky, seed=seed,
+                tags=("planar",), note="w != 0 (get_act_scale divides by |w|^2); lemma 1 + max(1, negative_slope) * w.u_hat > 0 proved from the traced get_act_scale and seeded")
 
 
 def spec_permute(perm):
@@ -360,6 +361,7 @@ LEAVES = {
     "planar1": lambda: spec_planar(1, False, True),
     "planar2c": lambda: spec_planar(2, True, True),
     "planar2tanh": lambda: spec_planar(2, False, False),
+    "planar2s": lambda: spec_planar(2, False, True, 2.0),     # documented: any positive slope (also > 1); 1/2 is exact in binary
     "perm3": lambda: spec_permute([2, 0, 1]),
     "perm22": lambda: spec_permute([[3, 0], [1, 2]]),
     "flip3": lambda: spec_flip((3,)),
